@@ -12,7 +12,8 @@ import os
 import sys
 
 REPO = os.environ.get("RVERIF_REPO", "/repo")
-MODS = ["rsome.subroutines", "rsome.lp", "rsome.socp", "rsome.gcp", "rsome.ro", "rsome.dro", "rsome.math"]
+MODS = ["rsome.subroutines", "rsome.lp", "rsome.socp", "rsome.gcp", "rsome.ro", "rsome.dro", "rsome.math",
+        "rsome.eco_solver", "rsome.ort_solver"]
 NAMES = ("np", "sp", "csr_matrix", "coo_matrix", "lil_matrix")
 
 _saved = {}
